@@ -482,8 +482,9 @@ func GetViaBrSig(viab []byte) (StrSigId, int) {
 	var next int
 	var err ErrorHdr
 
-	offs := bytes.IndexByte(viab, ';')
-	if offs == -1 {
+	// (stop at ',': only the 1st via value is looked at)
+	offs := bytes.IndexAny(viab, ";,")
+	if offs == -1 || viab[offs] == ',' {
 		return 0, 0 // no params
 	}
 	offs++ // skip over ';'
